@@ -274,7 +274,8 @@ class Gen:
                         self.count('same_name_values')
                         vals.append(v)
                         continue
-                    key = iname(v)
+                    # (compared without case: instantiate_name upper-cases the first letter, so `tT` and `TT`, `a` and `A` meet too)
+                    key = iname(v).upper()
                     # two values with the same instantiated name (a::X and b::X) give two classes of the same
                     # name and one output file (finding C10-instantiation-name-collision): kept apart here
                     if key not in seen:
@@ -374,9 +375,11 @@ class Gen:
         tp = tuple(t[1]) if t else ()
         name = None
         if used_names and r.random() < 0.2:
-            # a name that extends, or is a proper prefix of, a name already declared in this scope (Pose / Pose3 / PoseGraph)
+            # a name that extends, or is a proper prefix of, a name already declared in this scope (Pose / Pose3 / Pose_2);
+            # never by a suffix that an instantiation value could supply: f<Graph> is named fGraph and would share the file
+            # of a class fGraph (finding C10-class-function-name-collision)
             b = r.choice(sorted(used_names))
-            cand = b + r.choice(['3', 'Graph', 'X', '_2']) if r.random() < 0.6 or len(b) < 3 else b[:r.randint(2, len(b) - 1)]
+            cand = b + r.choice(['3', '2d', 'b', '_2']) if r.random() < 0.6 or len(b) < 3 else b[:r.randint(2, len(b) - 1)]
             if cand not in used_names and cand not in KEYWORDS and cand[0].isalpha():
                 name = cand
                 used_names.add(cand)
